@@ -12,3 +12,4 @@ import Reamber.Props.C02
 #print axioms Reamber.C02.comment_colon_counterexample
 #print axioms Reamber.C02.pairing_spec
 #print axioms Reamber.C02.reader_notes_eq_spec
+#print axioms Reamber.C02.tempo_list_keeps_times
